@@ -12,6 +12,7 @@ import (
 
 	"github.com/WICG/webpackage/go/internal/cbor"
 	"github.com/WICG/webpackage/go/internal/signingalgorithm"
+	"github.com/WICG/webpackage/go/internal/verifhook"
 	"github.com/WICG/webpackage/go/signedexchange/internal/bigendian"
 	"github.com/WICG/webpackage/go/signedexchange/structuredheader"
 	"github.com/WICG/webpackage/go/signedexchange/version"
@@ -163,6 +164,7 @@ func serializeSignedMessage(e *Exchange, certSha256 []byte, validityUrl string, 
 		buf.Write(rurl)
 
 		// "9. The 8-byte big-endian encoding of the length in bytes of headers, followed by the bytes of headers." [spec text]
+		verifhook.Point("signedexchange.serializeSignedMessage.headers")
 		headerBuf := &bytes.Buffer{}
 		if err := e.encodeExchangeHeaders(cbor.NewEncoder(headerBuf)); err != nil {
 			return nil, err
